@@ -97,7 +97,8 @@ def cases(tier, seed):
                             out.append({"assembly": name, "dir": g, "geom": geom, "kind": kind, "preserve": pres, "sections": sections, "tier": tier})
                             if geom == "stretch" and sections == 1:
                                 out.append({"assembly": name, "dir": g, "geom": geom, "kind": kind, "preserve": pres, "sections": sections, "tier": tier, "rewrite": True})
-                            if geom in ("jitter1", "jitter2", "taper") and sections == 1 and pres == "c2c_expansion" and name == "row2":
+                            if geom in ("jitter1", "jitter2", "taper") and sections == 1 and pres == "c2c_expansion" and name == "row2" and kind.startswith("count"):
+                                # (a request that fixes the count: with a size-derived count the two blocks rightly conflict)
                                 out.append({"assembly": name, "dir": g, "geom": geom, "kind": kind, "preserve": pres, "sections": sections, "tier": tier, "overspec": True})
     return out
 
